@@ -714,7 +714,8 @@ func (m *Manager) flushMemTable(mem *memtable.MemTable) error {
 			// Add this as a new entry (includes tombstones)
 			var valueCopy []byte
 			if currentValue != nil {
-				valueCopy = append([]byte(nil), currentValue...)
+				valueCopy = make([]byte, len(currentValue))
+				copy(valueCopy, currentValue)
 			}
 			// Note: valueCopy remains nil for tombstones
 
@@ -731,7 +732,8 @@ func (m *Manager) flushMemTable(mem *memtable.MemTable) error {
 				// This is a newer version of the same key, replace the previous entry
 				var valueCopy []byte
 				if currentValue != nil {
-					valueCopy = append([]byte(nil), currentValue...)
+					valueCopy = make([]byte, len(currentValue))
+					copy(valueCopy, currentValue)
 				}
 				// Note: valueCopy remains nil for tombstones
 
